@@ -127,6 +127,10 @@ class GF:
                 ln, order = b.get('length', K(1)), b.get('byteorder', K('big'))
                 if not (isinstance(ln, K) and isinstance(order, K)) or (b.get('signed') is not None and it_.truth(b['signed'])):
                     raise Fail('to_bytes of a data-dependent integer with symbolic length / signed')
+                if not isinstance(order.v, str):
+                    raise RaiseEx('TypeError', 'to_bytes() argument byteorder must be str')
+                if order.v not in ('little', 'big'):
+                    raise RaiseEx('ValueError', "byteorder must be either 'little' or 'big'")
                 if self.vec.width() > 8 * ln.v:
                     raise RaiseEx('OverflowError', 'int too big to convert')
                 return GFBytes(self.vec, ln.v, order.v)
